@@ -40,19 +40,31 @@ unsafe fn same_target<const L: usize>() {
     {
         let mut inj = InjectorPP::new();
         let mut last = 0u32;
+        let mut last_is_raw = true;
         let mut i = 0;
         while i < L {
             let t: u32 = kani::any();
             kani::assume(t != 0);
-            inj.when_called(FuncPtr::new(f as usize as *const (), SIG))
-                .will_execute_raw(FuncPtr::new(t as usize as *const (), SIG));
+            let raw: bool = kani::any();
+            if raw {
+                inj.when_called(FuncPtr::new(f as usize as *const (), SIG))
+                    .will_execute_raw(FuncPtr::new(t as usize as *const (), SIG));
+            } else {
+                // on 32-bit ARM the forced boolean is an ordinary redirect to one of two one-line functions
+                inj.when_called(FuncPtr::new(f as usize as *const (), SIG)).will_return_boolean(kani::any());
+            }
             last = t;
+            last_is_raw = raw;
             assert!(lock_held(), "VERIF[C04]: a live injector does not hold the process-wide lock");
             assert!(sim::all_clean(), "VERIF[C17]: bytes written during installation are not covered by a later flush");
+            kani::cover!(i > 0 && !raw, "COVER: forced boolean installed over an earlier fake of the same function");
             i += 1;
         }
         let d = dest_of(entry, thumb);
-        assert!(d == Some(last), "VERIF[C02]: while the injector lives, the most recent installation is not the one in effect");
+        assert!(d.is_some(), "VERIF[C02]: while the injector lives the entry does not decode to a redirect");
+        if last_is_raw {
+            assert!(d == Some(last), "VERIF[C02]: while the injector lives, the most recent installation is not the one in effect");
+        }
         let (ng, nv) = inj.__verif_counts();
         assert!(ng == L, "VERIF[C02]: the injector does not hold one guard per installation");
     }
